@@ -1095,7 +1095,7 @@ func (a *Analysis) flatSites(f *ssa.Function, depth int) []flatSite {
 		}
 		fs.recvW = rs.WrittenRoots[recv]
 		if rs.Err == 2 {
-			fs.unknown = "error operand is neither the nil constant, errors.New(...), nor a forwarded call tuple"
+			fs.unknown = "error operand is neither the nil constant, a definitely non-nil error (errors.New, fmt.Errorf, a write-once sentinel variable), nor a forwarded call tuple"
 		}
 		out = append(out, fs)
 	}
